@@ -285,3 +285,6 @@ def run(repo: Repo, rep: Report, tier: str) -> None:
     rep.rule("none-not-falsy", "timeouts are tested with `is None` (0 is a timeout, None is none)")
     zero_legal_truthiness(repo, rep, "none-not-falsy", {"timeout", "_timeout", "acse_timeout", "dimse_timeout", "network_timeout", "connection_timeout"}, modules=("timer", "dul", "association", "acse", "dimse", "transport"))
 
+    from .c08 import check_timeout_propagation
+    rep.rule("timeout-propagation", "the ARTIM and network-idle timers are given the configured timeouts (C08's timeout-propagation)")
+    check_timeout_propagation(repo, rep, "timeout-propagation")
